@@ -4,6 +4,7 @@ use std::io::{BufRead, Write};
 use std::panic::{catch_unwind, AssertUnwindSafe};
 
 mod lm;
+mod prof;
 mod st;
 
 fn main() {
@@ -39,6 +40,7 @@ fn main() {
             "lm-profile" => lm::run_profile(&toks),
             "st-samples" => st::run_samples(&toks),
             "st-counter" => st::run_counter(&toks),
+            "prof" => prof::run(&line),
             _ => panic!("unknown mode"),
         };
         writeln!(out, "{}", res).unwrap();
